@@ -58,6 +58,8 @@ type metaScn struct {
 	deleted  bool
 	broken   bool // an invariant violation was already reported for this scenario
 	maxSubs  int
+	// staleOffer: subscribers whose grant still carries an ownership offer made by a former owner
+	staleOffer map[types.Uid]bool
 	// pub/del bookkeeping for C08 probes
 	lastSeq int
 	// quietOwner: the owner stays attached and owner for the whole scenario and the topic is never reloaded
@@ -684,4 +686,35 @@ func (sc *metaScn) c05Replay() {
 			r.Violation("replay-proxy-diverged:"+sc.roleOf(uid), "proxy topic fed through updateAcsFromPresMsg disagrees with the folded notifications", sc.wit(nil, nil))
 		}
 	}
+}
+
+// actorByUid finds the scenario actor of a user.
+func (sc *metaScn) actorByUid(uid types.Uid) *metaActor {
+	for _, a := range sc.actors {
+		if a.u.uid == uid {
+			return a
+		}
+	}
+	return nil
+}
+
+// vfServerAttached reports whether the loaded topic lists the client's session (hooked state, read at quiescence).
+func vfServerAttached(c *vfClient, topic string) bool {
+	t := globals.hub.topicGet(topic)
+	if t == nil {
+		return false
+	}
+	var srv *Session
+	globals.sessionStore.lock.Lock()
+	for _, x := range globals.sessionStore.sessCache {
+		if x.userAgent == "vf/"+c.name {
+			srv = x
+		}
+	}
+	globals.sessionStore.lock.Unlock()
+	if srv == nil {
+		return false
+	}
+	_, ok := t.sessions[srv]
+	return ok
 }
